@@ -287,6 +287,12 @@ def main(ctx):
                 for ci, cd in enumerate(({}, align_all)):
                     cases.append(family.Case(src.encode(), lang, dict(cd), {'kind': 'deep-nesting', 'depth': depth, 'shape': si, 'cfgkind': 'align-all' if ci else 'default'},
                                              {'quiet': False, 'profile': None}))
+    # (b4) marker options given as regular expressions that the library refuses: a configuration error, never an abort
+    for bad in ('(', '[a', '*x', 'a{2', '\\'):
+        for optn in ('disable_processing_cmt', 'enable_processing_cmt'):
+            cd = {'processing_cmt_as_regex': 'true', optn: '"%s"' % bad.replace('\\', '\\\\')}
+            cases.append(family.Case(b'int a; /* c */\n// *INDENT-OFF*\nint  b ;\n// *INDENT-ON*\n', 'C', cd, {'kind': 'bad-marker-regex', 'cfgkind': optn},
+                                     {'quiet': False, 'profile': None}))
     # (c) random bytes
     for i in range(600 if quick else 8000):
         r = random.Random(core.subseed(ctx.useed, 'rnd', i))
